@@ -455,7 +455,22 @@ class Ctx:
       r, m = self.check([])
       if r == "unsat":
         st.discharged += 1; return True
-      self._failed(clause, detail, m if r == "sat" else None, "claim is the constant False")
+      # the claim does not depend on the inputs: prefer a model with non-degenerate (non-zero, distinct) inputs
+      md = None
+      try:
+        opt = z3.Optimize(); opt.set("timeout", min(self.timeout_ms, 5000))
+        for e, _ in self.pc: opt.add(e)
+        vs = [c for k, (kind, c) in self.vars.items() if kind in ("int", "real")]
+        for c in vs:
+          for bad in (0, 1, -1): opt.add_soft(c != bad)
+        rv = [z3.ToReal(c) if c.sort() == z3.IntSort() else c for c in vs]
+        for a in range(len(rv)):
+          for b in range(a):
+            opt.add_soft(rv[a] != rv[b]); opt.add_soft(rv[a] != -rv[b])
+        if str(opt.check()) == "sat": md = opt.model()
+      except z3.Z3Exception:
+        md = None
+      self._failed(clause, detail, md if md is not None else (m if r == "sat" else None), "claim is the constant False")
       return False
     t = z3.simplify(_bterm(claim))
     if z3.is_true(t):
